@@ -1,9 +1,25 @@
 import WzVerif.Driver.Proto
+import WzVerif.Model.Paths
 namespace Wz.Driver.C14
-open Wz Wz.Proto
+open Wz Wz.Proto Wz.Paths
 
-/-- stub: no model commands yet -/
 def handle : Handler
+  | "normpath", [p] =>
+    match unhexStr p with
+    | some p => some (hexStr (normpath p))
+    | none => some badArgs
+  | "join", a :: ps =>
+    match unhexStr a, ps.mapM unhexStr with
+    | some a, some ps => some (hexStr (join a ps))
+    | _, _ => some badArgs
+  | "safejoin", d :: ps =>
+    match unhexStr d, ps.mapM unhexStr with
+    | some d, some ps => some (outOpt hexStr (safeJoin d ps))
+    | _, _ => some badArgs
+  | "secure", [s] =>
+    match unhexStr s with
+    | some s => some (hexStr (secureAscii s))
+    | none => some badArgs
   | _, _ => none
 
 end Wz.Driver.C14
